@@ -17,6 +17,7 @@ mod distmodel;
 mod c19;
 mod common;
 mod json;
+mod memsafe;
 mod model;
 mod rng;
 mod tfm_ref;
@@ -76,6 +77,7 @@ fn main() {
         "C03" => (c03::run(&cfg), c03::RULE, c03::REQUIRED),
         "C04" => (c04::run(&cfg), c04::RULE, c04::REQUIRED),
         "C05" => (c05::run(&cfg), c05::RULE, c05::REQUIRED),
+        "C06" => (memsafe::run(&cfg), memsafe::RULE, memsafe::REQUIRED),
         "C07" => (c07::run(&cfg), c07::RULE, c07::REQUIRED),
         "C08" => (c08::run(&cfg), c08::RULE, c08::REQUIRED),
         "C09" => (c09::run(&cfg), c09::RULE, c09::REQUIRED),
